@@ -5,6 +5,8 @@ import GomlVerif.Lemmas.LowerOk
 import GomlVerif.Lemmas.LowerOkFn
 import GomlVerif.Lemmas.LowerOkFile
 import GomlVerif.Lemmas.LowerFuelFile
+import GomlVerif.Lemmas.LowerPrattOps
+import GomlVerif.Props.C11
 /-!
 # CST→AST lowering — properties of `Model/Lower.lean`
 
@@ -174,6 +176,39 @@ theorem lower_ast_eq_built (file : Cst) (a : File) (h : (lowerFile file).ast = s
   split at h
   · cases h; rfl
   · cases h
+
+/-- **`lower_parse_print_ops`** (the first group of `lower_parse_print`; restriction explicit and decidable). On the image
+`embed : Pratt.Cst → Cst` of the Pratt model's concrete syntax trees in the rowan-shaped trees of `Model/Lower.lean` — the
+lowering model that is tied to `ast::lower` on the REAL rowan tree — restricted to OPERATOR trees (`plain c`: identifiers, integer
+literals, parentheses, both prefix operators, the twelve binary operators; no call, no `.`), the real lowering model computes
+what `Pratt.lower` computes: if the token list parses to `c` and `Pratt.parse` reads it as `a`, lowering `embed c` yields
+`toExpr a` — from ANY state (binder stack, diagnostics) and with fuel `depth c`.  Side condition `fits C a`: no variable of `a`
+is spelled like a constructor of the file (it would be an `EConstr`, see `lower_ctor_iff`); tuple indices fit `usize` (vacuous
+in this group).  `Lemmas/LowerPratt.lean` has the view lemmas (`view_ident/int/paren/prefix/binary`: what `lowerExprW` does on
+each node kind of the image), `Lemmas/LowerPrattOps.lean` the induction (`lower_plain`). -/
+theorem lower_parse_print_ops (C : List String) (ts : List Pratt.Tok) (c : Pratt.Cst) (a : Pratt.Ast)
+    (hc : Pratt.parseCst ts = some c) (hp : plain c = true) (ha : Pratt.parse ts = some a) (hf : fits C a = true) (s : St) :
+    (lowerExprW C (depth c) (embed c) [] s).1 = some (toExpr a) := by
+  unfold Pratt.parse at ha
+  rw [hc] at ha
+  exact lower_plain C c a (depth c) s hp ha hf (Nat.le_refl _)
+
+/-- … hence `parse_print` (Props/C11.lean) holds for the real lowering model on operator trees: printing a well-formed tree `t`
+with only the necessary parentheses, parsing (Pratt model) and lowering with `Model/Lower.lean` gives `t` back -/
+theorem lower_parse_print_ops_tree (C : List String) (t : Pratt.Ast) (hwf : Pratt.wf t = true) (hf : fits C t = true)
+    (c : Pratt.Cst) (hc : Pratt.parseCst (Pratt.printMin t 0) = some c) (hp : plain c = true) (s : St) :
+    (lowerExprW C (depth c) (embed c) [] s).1 = some (toExpr t) :=
+  lower_parse_print_ops C _ c t hc hp (Goml.Props.C11.parse_print t hwf) hf s
+
+/-- beyond `usize` the real code (`text.parse::<usize>()` in the `.` case) reports "Invalid tuple index"; `Pratt.digitsNat`
+has no such bound — which is why `fits` asks for indices below `2^64` -/
+example : parseUsize "18446744073709551615" = some (2 ^ 64 - 1) ∧ parseUsize "18446744073709551616" = none ∧
+    Pratt.digitsNat "18446744073709551616".toList = some (2 ^ 64) := by decide
+
+/-- non-vacuity: `- a * ( b + 1 )` -/
+example : (lowerExprW ["Mk"] 4 (embed (.binary .Star (.prefix .Minus (.ident "a")) (.paren (.binary .Plus (.ident "b") (.int ['1']))))) [] {}).1
+    = some (.bin .mul (.un .neg (.path ["a"])) (.bin .add (.path ["b"]) (.lit (.int none "1")))) :=
+  lower_plain ["Mk"] _ (.bin .mul (.un .neg (.var "a")) (.bin .add (.var "b") (.lit ['1']))) 4 {} (by decide) (by rfl) (by decide) (by decide)
 
 /-! ## non-vacuity: concrete trees -/
 
